@@ -118,6 +118,13 @@ def run(ctx):
                     if b[i] > 0 and i != j:
                         b[i] -= 1; b[j] += 1
                         ctx.bucket("unequal_same_photon_number")
+                if rng.random() < 0.08:
+                    # occupations of several digits whose digit strings read the same (|1,20> and |12,0>)
+                    from ..gen import confusable_occupations
+                    fam_ = confusable_occupations(rng, int(rng.integers(2, 5)), 2)
+                    if len(fam_) == 2:
+                        a, b = fam_
+                        ctx.bucket("occupations_whose_digits_read_the_same")
                 sa, sb = State(list(a)), State(list(b))
                 case.update(a=a, b=b)
                 law((sa == sb) == (a == b), f"State({a}) == State({b}) is {sa == sb}", case, "eq")
